@@ -689,10 +689,25 @@ def rule_skips(ctx: Ctx) -> RuleResult:
     res.floor(n, 4, "skip statements in star_search_simple")
     # required guards on the yield
     ys = [y for y in _yields(f) if isinstance(y, ast.Yield)]
+    import re as _re
+    from ..shape import facts_at as _facts_at
+
     for y in ys:
         tests = {(norm(t), lab) for t, lab in ctx.ef._dominating_tests(cfg, y)}
         need = [("not sid", "false"), ("sid.type != search.type", "false")]
         missing = [t for t in need if t not in tests]
+        if missing:
+            # the same two guards as facts about whatever name the found Sid goes by here
+            yv = y.value
+            if isinstance(yv, ast.Call) and dotted(yv.func) == "str" and len(yv.args) == 1:
+                yv = yv.args[0]
+            fs_ = _facts_at(ctx, f, y)
+            if isinstance(yv, ast.Name):
+                sv = _re.escape(yv.id)
+                truthy = (yv.id, True) in fs_
+                typed = any((_re.fullmatch(rf"{sv}\.type != \w+\.type", t_) and not tr_) or (_re.fullmatch(rf"{sv}\.type == \w+\.type", t_) and tr_)
+                            for t_, tr_ in fs_)
+                missing = ([] if truthy else [need[0]]) + ([] if typed else [need[1]])
         if missing:
             res.violation([q, "yield guard", missing[0][0]], f"star_search_simple yields without the `{missing[0][0]}` skip", f.relpath, y.lineno)
         else:
@@ -1164,13 +1179,28 @@ def rule_sort(ctx: Ctx) -> RuleResult:
         res.violation([f.qualname, "index"], "sorted_search does not locate '>' among the '/'-segments", f.relpath, f.node.lineno)
     rep = [n for n in own_nodes(f.node) if isinstance(n, ast.Call) and isinstance(n.func, ast.Attribute) and n.func.attr == "replace"
            and len(n.args) == 2 and norm(n.args[0]) == "'>'" and norm(n.args[1]) == "'*'"]
-    if rep:
-        res.ok("sorted_search star read", "'>' is read as '*' for the underlying search")
+    untyped_rep = [n for n in rep if not (isinstance(n.func.value, ast.Attribute) and n.func.value.attr == "uri")]
+    if rep and untyped_rep:
+        res.violation([f.qualname, "star read", "type dropped"], f"sorted_search builds the '*' form from `{norm(untyped_rep[0].func.value)}`, not from the "
+                                                                 f"search's uri: each typed search loses its type and is typed again by the first "
+                                                                 f"template that fits the string", f.relpath, untyped_rep[0].lineno)
+    elif rep:
+        res.ok("sorted_search star read", "'>' is read as '*' in the uri of each typed search")
     else:
         res.violation([f.qualname, "star read"], "sorted_search no longer reads '>' as '*'", f.relpath, f.node.lineno)
     # the input to the sort is the de-duplicated set of found strings
     s_arg = s.args[0] if s.args else None
-    if s_arg is not None and "set(" in norm(s_arg):
+
+    def _is_set(e) -> bool:
+        if isinstance(e, (ast.Set, ast.SetComp)) or (isinstance(e, ast.Call) and dotted(e.func) in ("set", "frozenset")):
+            return True
+        if isinstance(e, ast.Name):
+            at_ = flow.node_of(s)
+            ds = flow.defs_reaching(at_.id, e.id) if at_ is not None else []
+            return bool(ds) and all(d.kind == "assign" and d.value is not None and not isinstance(d.value, ast.Name) and _is_set(d.value) for d in ds)
+        return False
+
+    if s_arg is not None and ("set(" in norm(s_arg) or _is_set(s_arg)):
         res.ok("sorted_search input", "duplicates are removed before sorting")
     else:
         res.violation([f.qualname, "duplicates"], "sorted_search sorts without removing duplicates", f.relpath, s.lineno)
@@ -1265,6 +1295,11 @@ def rule_finderid(ctx: Ctx) -> RuleResult:
                     and isinstance(t.operand, ast.Name) and t.operand.id in f.module.bindings]
             miss += [t for t, lab in tests if lab == "true" and isinstance(t, ast.Compare) and isinstance(t.ops[0], (ast.Is, ast.NotIn))
                      and any(isinstance(x, ast.Name) and x.id in f.module.bindings for x in ast.walk(t))]
+            if not miss:
+                # the miss test combined with others: a fact that a module-level table is empty
+                from ..shape import fact_nodes_at as _fna
+
+                miss = [e_ for e_, tr_ in _fna(ctx, f, c) if not tr_ and isinstance(e_, ast.Name) and e_.id in f.module.bindings]
             if miss:
                 # built once for the whole process: it may not depend on the arguments of the call that happens to be first
                 flow = flow_of(f.node)
